@@ -619,3 +619,7 @@ def check(cx):
             good = good and not cmps
         cx.verdict(good, r9, "keys_match", km.where(), "NULL on either side: no match, no comparison",
                    "keys_match compares a NULL key (NULL = NULL would pair rows in hash and merge joins)")
+
+    # ---- C05.10 (construct shared with C06.10) ---------------------------------------------------------------------
+    cx.include(c06, {"C06.10"}, "C05.10", "shared with C06.10: a merge join gets its inputs sorted on every key column (the ordering check "
+               "accepts no prefix); otherwise a join on a composite key pairs fewer rows than SQL prescribes", floor=1)
